@@ -7,29 +7,55 @@ namespace utapv {
 TraceSink* g_trace_sink = nullptr;
 }
 
-// bison debug output arrives in fragments; assemble lines.
+// bison's debug output arrives in fragments (one YYFPRINTF call each).  Only a handful of line kinds are
+// observation material; everything else (rule reductions, symbol values) is dropped without formatting.
+static bool interesting(const char* fmt, va_list ap)
+{
+    if (strncmp(fmt, "Starting parse", 14) == 0 || strncmp(fmt, "Stack now", 9) == 0 ||
+        strncmp(fmt, "Reading a token", 15) == 0 || strncmp(fmt, "Now at end of input", 19) == 0)
+        return true;
+    if (strcmp(fmt, "%s ") == 0) {  // YY_SYMBOL_PRINT(title, ...): "Shifting", "Next token is", "-> $$ =", ...
+        va_list cp;
+        va_copy(cp, ap);
+        const char* title = va_arg(cp, const char*);
+        va_end(cp);
+        return title != nullptr && strncmp(title, "Shifting", 8) == 0;
+    }
+    return false;
+}
+
 extern "C" int utapv_trace(FILE*, const char* fmt, ...)
 {
-    static thread_local char line[8192];
+    static thread_local char line[4096];
     static thread_local size_t len = 0;
+    static thread_local bool at_line_start = true;
+    static thread_local bool collecting = false;
     if (utapv::g_trace_sink == nullptr) {
         len = 0;
+        at_line_start = true;
+        collecting = false;
         return 0;
     }
     va_list ap;
     va_start(ap, fmt);
-    int n = vsnprintf(line + len, sizeof(line) - len, fmt, ap);
-    va_end(ap);
-    if (n < 0)
-        return 0;
-    len += (size_t)n < sizeof(line) - len ? (size_t)n : sizeof(line) - len - 1;
-    char* nl;
-    while ((nl = (char*)memchr(line, '\n', len)) != nullptr) {
-        *nl = '\0';
-        utapv::g_trace_sink->line(line);
-        size_t used = (nl - line) + 1;
-        memmove(line, nl + 1, len - used);
-        len -= used;
+    if (at_line_start) {
+        collecting = interesting(fmt, ap);
+        len = 0;
     }
-    return n;
+    size_t fl = strlen(fmt);
+    bool ends_line = fl > 0 && fmt[fl - 1] == '\n';
+    if (collecting) {
+        int n = vsnprintf(line + len, sizeof(line) - len, fmt, ap);
+        if (n > 0)
+            len += (size_t)n < sizeof(line) - len ? (size_t)n : sizeof(line) - len - 1;
+        if (ends_line) {
+            if (len > 0 && line[len - 1] == '\n')
+                line[len - 1] = '\0';
+            utapv::g_trace_sink->line(line);
+            len = 0;
+        }
+    }
+    va_end(ap);
+    at_line_start = ends_line;
+    return 0;
 }
